@@ -6,6 +6,7 @@ import z3
 import gen
 import refs
 from core import Q, Tree, TAU, zclosed, run_driver, hex_of_float, Stats
+from fractions import Fraction as FR
 from fw import Check, Target, get_convention, run_main, run_target_check, step_panics
 from hist import Hist
 
@@ -20,12 +21,15 @@ def make_cases(chk):
     n = 260 if quick else 20000
     for i in range(n):
         fam = i % 4
+        # every 7th history uses predicates of magnitude 1e3..1e6 next to unit-size ones (function preservation must not
+        # depend on the scale of a row; margins are geometric: tau * |a|_1)
+        scale = rng.choice([FR(10**3), FR(10**5) * FR(7, 3), FR(10**6)]) if i % 7 == 3 else None
         if fam == 0:      # elimination-centred histories
-            h = Hist("h%d" % i, rng, max_ops=4, ops=["compose_f_schema", "compose_f_schema", "compose_f_tree", "apply_func", "elim", "elim"])
+            h = Hist("h%d" % i, rng, max_ops=4, ops=["compose_f_schema", "compose_f_schema", "compose_f_tree", "apply_func", "elim", "elim"], scale=scale)
             if not any(c["kind"] == "elim" for c in h.checkpoints):
                 h._op("elim")
         elif fam == 1:    # pruned composition against un-pruned composition
-            h = Hist("h%d" % i, rng, max_ops=4, ops=["compose_t_schema", "compose_t_tree", "compose_f_schema", "elim", "apply_func"])
+            h = Hist("h%d" % i, rng, max_ops=4, ops=["compose_t_schema", "compose_t_tree", "compose_f_schema", "elim", "apply_func"], scale=scale)
             if not any(c["kind"] == "compose_t" for c in h.checkpoints):
                 h._op("compose_t_schema")
         elif fam == 2:    # arithmetic (prunes on the fly), also on trees that carry caches
